@@ -19,6 +19,8 @@ LEVEL_TEXT = ('Decides from the source: every argument of compile() that flows i
               'or a new writer, is a violation until reviewed); Model._parse methods do not store on self; configuration '
               'objects written on the parse path are freshly created there; no first-match loop iterates a set. Thread '
               'interleavings and equality with a fresh interpreter are not decided.')
+TECHNIQUE += '; shared-configuration rule (no setter or method of a shared model rebinds or mutates the configuration object other holders see); class-level containers and name-keyed registries included in the inventory'
+LEVEL_TEXT += ' Added clause: configuration objects held by a model are not rebound or mutated through property setters.'
 LEVEL_NOTE = 'Trusted: dataclasses.replace / ParserConfig.new / Config.override return new objects; id(x) of a dead object can be reused.'
 EXPLANATION = ('Static analysis of /repo sources, TatSu not imported. Def-use chains inside api.compile relate parameters to '
                'the cache key and to the cached value; the package is scanned for shared mutable state and each store site is '
